@@ -87,13 +87,20 @@ def cmd_verify(name):
 def cmd_run(name, checks):
     d = os.path.join(ROOT, name)
     m = load_meta(name)
+    # --key <suffix>: store the outcome under checks_<suffix> / caught_by_<suffix> (e.g. the
+    # outcome with an earlier version of the harness)
+    key = ""
+    if "--key" in checks:
+        i = checks.index("--key")
+        key = "_" + checks[i + 1]
+        checks = checks[:i] + checks[i + 2:]
     if sh(f"git -C {REPO} status --porcelain").stdout.strip():
         raise SystemExit("/repo working tree is not clean")
     if not checks:
         checks = [m["property"]]
     if checks == ["all"]:
         checks = ["C%02d" % i for i in range(1, 21)]
-    res = m.get("checks", {})
+    res = m.get("checks" + key, {})
     try:
         ap = sh(f"git -C {REPO} apply {os.path.join(d, 'patch.diff')}")
         if ap.returncode:
@@ -107,8 +114,8 @@ def cmd_run(name, checks):
             print(name, c, "exit", r.returncode, (why[0][:160] if why else ""))
     finally:
         sh(f"git -C {REPO} checkout -- .")
-    m["checks"] = res
-    m["caught_by"] = sorted(c for c, v in res.items() if v["exit"] == 1 and v["violation"])
+    m["checks" + key] = res
+    m["caught_by" + key] = sorted(c for c, v in res.items() if v["exit"] == 1 and v["violation"])
     save_meta(name, m)
 
 
